@@ -121,6 +121,18 @@ probe("cvrpDoneCmp", "Cmp", ".eq", "cvrp/env.py:_step  `visited.sum(-1) == visit
       cmp_probe(CV, "CVRPEnv._step", "visited.sum(-1)", "visited.size(-1)"))
 
 
+probe("cvrpDepotCurCmp", "Cmp", ".eq", "cvrp/env.py:get_action_mask  depot rule `td['current_node'] == 0`",
+      cmp_probe(CV, "CVRPEnv.get_action_mask", "td['current_node']", "0"))
+probe("cvrpDepotAnyCmp", "Cmp", ".gt", "cvrp/env.py:get_action_mask  depot rule `(mask_loc == 0).int().sum(-1) > 0`",
+      cmp_probe(CV, "CVRPEnv.get_action_mask", "(mask_loc == 0).int().sum(-1)", "0"))
+probe("cvrpStepDepotCmp", "Cmp", ".ne", "cvrp/env.py:_step  load reset factor `(current_node != 0)`",
+      cmp_probe(CV, "CVRPEnv._step", "current_node", "0"))
+probe("cvrpCheckClampCmp", "Cmp", ".lt", "cvrp/env.py:check_solution_validity  clamp `used_cap[used_cap < 0] = 0`",
+      cmp_probe(CV, "CVRPEnv.check_solution_validity", "used_cap", "0"))
+probe("cvrpCheckTol", "Nat × Nat", "(1, 100000)", "cvrp/env.py:check_solution_validity  tolerance in `used_cap <= vehicle_capacity + 1e-5` (num, den)",
+      const_in_compare_probe(CV, "CVRPEnv.check_solution_validity", "used_cap", "td['vehicle_capacity']"))
+
+
 def load_extra_probes():
     """families may register further probes in harness/probes/*.py (each defines `register(probe, cmp_probe, ...)`)"""
     pdir = os.path.join(HERE, "probes")
